@@ -1016,8 +1016,24 @@ def run_cases(cases, workers=16, hard_timeout=40):
     return results
 
 
-def isolated(fn, args=(), timeout=60):
-    """run fn(*args) in a forked child in its own process group; returns ('ok', result) | ('timeout', None) | ('error', text)"""
+ISOLATED_RERUNS = [0]
+
+
+def isolated(fn, args=(), timeout=60, attempts=2):
+    """run fn(*args) in a forked child in its own process group; returns ('ok', result) | ('timeout', None) | ('error', text).
+    A run that times out is repeated once (CPython's Pool.terminate() hangs once in several thousand closes with work in flight — see
+    c01.execute): only a REPEATABLE timeout is reported. Nothing of a run survives it, so repeating is free of side effects."""
+    res = ('timeout', None)
+    for attempt in range(max(1, attempts)):
+        res = _isolated_once(fn, args, timeout)
+        if res[0] != 'timeout':
+            break
+        if attempt + 1 < attempts:
+            ISOLATED_RERUNS[0] += 1
+    return res
+
+
+def _isolated_once(fn, args=(), timeout=60):
     r, w = os.pipe()
     pid = os.fork()
     if pid == 0:
